@@ -17,7 +17,7 @@ func init() {
 		},
 		N: func(tier string) int {
 			if tier == "quick" {
-				return 8000
+				return 40000
 			}
 			return 400000
 		},
